@@ -1,16 +1,34 @@
 /- Driver for the path-sum / TEMPO model (used by C01, C02, C04, C05, C06).
-   line:  tempo L n K|none hasAdd(0/1) | rho0 | Uin | Uout | P1_1 | P2_1 | … | P1_n | P2_n | id tbl | id tbl …
-   answer: the n+1 states (steps 0..n), each L numbers, separated by " ; " -/
+   line:  <op> L n K|none hasAdd(0/1) | rho0 | Uin | Uout | P1_1 | P2_1 | … | P1_n | P2_n | id tbl | id tbl …
+   op = tempo : the n+1 states (steps 0..n), each L numbers, separated by " ; "
+   op = hyp   : residuals (squared moduli, exact rationals) of the hypotheses of
+                Props.C04.trace_preserved / hermitian_preserved on these very tensors:
+                "tp <max over props,U> herm <max over props,U,rho0> unit <max over tables> conj <max over tables>"
+   op = ptinfl: extra section "| path | path …" at the end (each path = 2n indices o_{n-1} i_{n-1} … o_0 i_0);
+                answer: `ptOfInfluence` on each path. -/
 import OQuPyVerif.Model.ProtoQI
 import OQuPyVerif.Model.Tempo
-open OQuPyVerif OQuPyVerif.Proto OQuPyVerif.PathSum OQuPyVerif.Tempo
+import OQuPyVerif.Model.ProcessTensor
+open OQuPyVerif OQuPyVerif.Proto OQuPyVerif.PathSum OQuPyVerif.Tempo OQuPyVerif.PT
+
+structure Case where
+  L : Nat
+  n : Nat
+  dkmax : Option Nat
+  hasAdd : Bool
+  rho0 : Array QI
+  uin : Array QI
+  uout : Array QI
+  props : List (Array QI)
+  tbls : List (Int × Array QI)
+  extra : List (List String)
 
 def lookupTbl (tbls : List (Int × Array QI)) (L : Nat) : Int → Nat → Nat → QI :=
   fun id a b => match tbls.find? (fun t => t.1 == id) with
     | some t => t.2.getD (a * L + b) 0
     | none => 0
 
-def runTempo (ws : List String) : Option String := do
+def parseCase (ws : List String) : Option Case := do
   let secs := sections ws
   let hd ← secs[0]?
   let L ← (← hd[0]?).toNat?
@@ -22,29 +40,84 @@ def runTempo (ws : List String) : Option String := do
   let uin ← parseQIs? (← secs[2]?)
   let uout ← parseQIs? (← secs[3]?)
   let props ← ((secs.drop 4).take (2*n)).mapM parseQIs?
-  let tblSecs := secs.drop (4 + 2*n)
+  let rest := secs.drop (4 + 2*n)
+  let tblSecs := rest.takeWhile (fun s => s.head? != some "paths")
+  let extra := (rest.dropWhile (fun s => s.head? != some "paths")).map (fun s => s.drop 1)
   let tbls ← tblSecs.mapM (fun s => do
     let id ← (← s[0]?).toInt?
     let arr ← parseQIs? (s.drop 1)
     pure (id, arr))
-  let P1 : Nat → Nat → Nat → QI := fun k => tab2 L ((props.getD (2*(k-1)) #[]))
-  let P2 : Nat → Nat → Nat → QI := fun k => tab2 L ((props.getD (2*(k-1)+1) #[]))
-  let Uin := tab2 L uin
-  let Uout := tab2 L uout
-  let I := inflOfTables dkmax hasAdd (lookupTbl tbls L)
+  pure { L, n, dkmax, hasAdd, rho0, uin, uout, props, tbls, extra }
+
+def Case.P1 (c : Case) : Nat → Nat → Nat → QI := fun k => tab2 c.L (c.props.getD (2*(k-1)) #[])
+def Case.P2 (c : Case) : Nat → Nat → Nat → QI := fun k => tab2 c.L (c.props.getD (2*(k-1)+1) #[])
+def Case.I (c : Case) : Nat → Nat → Nat → Nat → QI :=
+  inflOfTables c.dkmax c.hasAdd (lookupTbl c.tbls c.L)
+
+def runTempo (c : Case) : String :=
+  let L := c.L
+  let Uin := tab2 L c.uin
+  let Uout := tab2 L c.uout
   -- tabulate the kernels once (semantic no-op: `tab2 (tabulate2 f) = f` on the index range)
-  let Ms : Array (Array QI) := Array.ofFn (n := n+1) (fun k => tabulate2 L L (kernelM L P1 P2 Uin Uout k.val))
+  let Ms : Array (Array QI) :=
+    Array.ofFn (n := c.n+1) (fun k => tabulate2 L L (kernelM L c.P1 c.P2 Uin Uout k.val))
   let M : Nat → Nat → Nat → QI := fun k => tab2 L (Ms.getD k #[])
-  let states := (List.range (n+1)).map (fun m =>
-    if m = 0 then (List.range L).map (tab1 rho0)
+  let states := (List.range (c.n+1)).map (fun m =>
+    if m = 0 then (List.range L).map (tab1 c.rho0)
     else
-      let fin := tabulate2 L L (matMul L (P2 m) Uout)
-      (List.range L).map (fun out => pathState L (tab1 rho0) M I m (fun a => tab2 L fin out a)))
-  pure (" ; ".intercalate (states.map (fun st => " ".intercalate (st.map showQI))))
+      let fin := tabulate2 L L (matMul L (c.P2 m) Uout)
+      (List.range L).map (fun out => pathState L (tab1 c.rho0) M c.I m (fun a => tab2 L fin out a)))
+  " ; ".intercalate (states.map (fun st => " ".intercalate (st.map showQI)))
+
+def normSq (z : QI) : Rat := z.re * z.re + z.im * z.im
+def maxR (l : List Rat) : Rat := l.foldl (fun a b => if a < b then b else a) 0
+
+def isqrt (L : Nat) : Nat := (List.range (L+1)).find? (fun d => d * d == L) |>.getD 0
+
+def runHyp (c : Case) : String :=
+  let L := c.L
+  let d := isqrt L
+  let trv : Nat → QI := fun a => if a / d == a % d then 1 else 0
+  let sw : Nat → Nat := fun a => (a % d) * d + a / d
+  let idx := List.range L
+  let tpRes (A : Nat → Nat → QI) : Rat :=
+    maxR (idx.map (fun b => normSq ((idx.map (fun a => trv a * A a b)).foldl (· + ·) 0 - trv b)))
+  let hpRes (A : Nat → Nat → QI) : Rat :=
+    maxR (idx.flatMap (fun a => idx.map (fun b => normSq (star (A (sw a) (sw b)) - A a b))))
+  let mats : List (Nat → Nat → QI) :=
+    [tab2 L c.uin, tab2 L c.uout] ++ c.props.map (fun p => tab2 L p)
+  let tp := maxR (mats.map tpRes)
+  let herm := maxR ((mats.map hpRes) ++
+    [maxR (idx.map (fun a => normSq (star (tab1 c.rho0 (sw a)) - tab1 c.rho0 a)))])
+  let tbl := lookupTbl c.tbls L
+  let ids := c.tbls.map (·.1)
+  let unitR := maxR (ids.flatMap (fun id => idx.flatMap (fun e => idx.map (fun l =>
+    -- dk = 0 tables only use the diagonal
+    if id == 0 && e != l then 0 else normSq (trv l * tbl id e l - trv l)))))
+  let conjR := maxR (ids.flatMap (fun id => idx.flatMap (fun e => idx.map (fun l =>
+    if id == 0 && e != l then 0 else normSq (star (tbl id (sw e) (sw l)) - tbl id e l)))))
+  s!"tp {showRat tp} herm {showRat herm} unit {showRat unitR} conj {showRat conjR}"
+
+def runPtInfl (c : Case) : String :=
+  let L := c.L
+  let Uin := tab2 L c.uin
+  let Uout := tab2 L c.uout
+  let vals := c.extra.map (fun pw =>
+    match pw.mapM String.toNat? with
+    | some p => showQI (ptOfInfluence L Uin Uout c.I c.n p)
+    | none => "bad-path")
+  " ".intercalate vals
 
 def step (line : String) : String :=
   match words line with
-  | "tempo" :: rest => (runTempo rest).getD "bad-op"
+  | op :: rest =>
+    match parseCase rest with
+    | some c =>
+      if op == "tempo" then runTempo c
+      else if op == "hyp" then runHyp c
+      else if op == "ptinfl" then runPtInfl c
+      else "bad-op"
+    | none => "bad-op"
   | _ => "bad-op"
 
 def main : IO Unit := mainLoop step
